@@ -133,6 +133,8 @@ type c15Band struct {
 	shared int64 // frequency carried by a default channel and by an added one
 	fresh  int64 // frequency of an added channel only
 	drIn   int64 // a data-rate of the default channel on the shared frequency
+	// downOnly: only the downlink accessor, on concrete channel flags (a fixed channel plan with 72 uplink channels)
+	downOnly bool
 }
 
 var c15EU868 = c15Band{name: "EU868", extra: c15Extra, shared: 868300000, fresh: 867100000, drIn: 3}
@@ -209,6 +211,9 @@ func c15BookkeepingE1(c *Ctx) {
 		}
 		c15Lookup(c, b)
 	}
+	// a fixed channel plan whose downlink table is shorter than its uplink table (72 / 8): an accessor that guards one
+	// table with the length of the other is wrong only here
+	c15Index(c, c15Band{name: "US915", downOnly: true}, 64)
 	c15AddChannelE1(c)
 }
 
@@ -294,8 +299,11 @@ func c15Index(c *Ctx, b c15Band, ib int) {
 		method, table string
 	}
 	for _, a := range []acc{{"GetUplinkChannel", "uplinkChannels"}, {"GetDownlinkChannel", "downlinkChannels"}} {
+		if b.downOnly && a.method != "GetDownlinkChannel" {
+			continue
+		}
 		key := fmt.Sprintf("%s/%s/int%d", b.name, a.method, ib)
-		st, err := c15Setup(c, b.name, b.extra, true)
+		st, err := c15Setup(c, b.name, b.extra, !b.downOnly)
 		if err != nil {
 			r.Unknown(rule, key, "", "band state inside the interpreter's subset", err.Error())
 			continue
@@ -328,6 +336,9 @@ func c15Index(c *Ctx, b c15Band, ib int) {
 			}
 		}
 		r.Check(bad == "", rule, key, "", "error iff the index is outside the table; otherwise the indexed entry", bad, true)
+	}
+	if b.downOnly {
+		return
 	}
 	// GetTXPowerOffset
 	{
